@@ -13,7 +13,10 @@ ASSUMPTIONS = TRUSTED_BASE + [
     "Puckering 6 atoms non-periodic 3-D, pbc_dist_coordinate per axis (its loop treats axes independently)",
     "equality of sqrt/arctan2 results is proved by proving equality of their arguments (or of the invariant they depend on)",
     "not covered: periodic Dihedral/Puckering (path explosion: 3 or 5 wrapped vectors x 3 axes), Path.reverse recomputation",
-    "NOT DECIDED: rotation invariance (Distance, Dihedral, Puckering): the entailment from R^T R = I, det R = 1 stays `unknown` in z3 nlsat and cvc5 within budget (tried; scenario code kept in _scenario, clause not registered)",
+    "rotation invariance of Distance and Dihedral (non-periodic): proved as RATIONAL-FUNCTION IDENTITIES -- every proper rotation is R(q) = M(q)/|q|^2 for a non-zero quaternion (Euler-Rodrigues parametrisation, trusted lemma), "
+    "the real calculate() runs on symbolic positions and on R(q)-rotated ones, and the two results are the same rational function of coordinates and q after canonicalising sqrt/arctan2 applications (sympy cancel; symnp/ratid.py). "
+    "Sound wherever no denominator vanishes (|q| != 0, non-coincident atoms).  The earlier attempt (R^T R = I, det R = 1 as constraints) stayed `unknown` in z3 nlsat and cvc5",
+    "NOT DECIDED: rotation invariance of Puckering (18 coordinates x quaternion: the canonical forms did not finish in 40 min); reflections are not rotations and change the sign of a dihedral (checked: the back end answers `unknown` for a reflection)",
     "image-shift clauses: box lengths range over {1, 2, 4} (keeps the rint/shift algebra linear); coordinates and the integer shift counts are fully symbolic; Distance/Distancevel shift in one periodic dimension",
 ]
 EXPLANATION = (
@@ -34,7 +37,9 @@ def jobs(tier):
         "puckering_translation", "puckering_unmodified",
         "distancevel_engine_vel_rev", "velocity_engine_vel_rev", "distance_engine_vel_rev",
     ]
-    return [("py", {"name": n, "module": "props.C20", "fn": "run_clause", "clause": n, "cost": 5 if "rotation" in n or "pucker" in n else 1}) for n in names]
+    js = [("py", {"name": n, "module": "props.C20", "fn": "run_clause", "clause": n, "cost": 5 if "pucker" in n else 1}) for n in names]
+    js += [("py", {"name": n, "module": "props.C20", "fn": "run_rotation", "clause": n, "cost": 8}) for n in ("distance_rotation", "dihedral_rotation")]  # puckering_rotation: expression swell (18 coordinates x quaternion), not decided
+    return js
 
 
 # ------------------------------------------------------------------ helpers
@@ -88,6 +93,25 @@ def _rotation(ex):
     det = (R[0, 0].t * (R[1, 1].t * R[2, 2].t - R[1, 2].t * R[2, 1].t) - R[0, 1].t * (R[1, 0].t * R[2, 2].t - R[1, 2].t * R[2, 0].t)
            + R[0, 2].t * (R[1, 0].t * R[2, 1].t - R[1, 1].t * R[2, 0].t))
     ex.assume(det == 1)
+    return R
+
+
+def _rotation_q(ex):
+    """Every proper rotation is R(q) = M(q)/|q|^2 for a non-zero quaternion q = (a, b, c, d) (Euler-Rodrigues; trusted lemma):
+    the entries are rational functions of four FREE reals, no side constraints."""
+    import numpy as np
+    import z3
+    from symnp.sym import Sym
+    a, b, c, d = (z3.Real(n) for n in ("qa", "qb", "qc", "qd"))
+    n2 = a * a + b * b + c * c + d * d
+    ex.assume(n2 != 0)
+    M = [[a * a + b * b - c * c - d * d, 2 * (b * c - a * d), 2 * (b * d + a * c)],
+         [2 * (b * c + a * d), a * a - b * b + c * c - d * d, 2 * (c * d - a * b)],
+         [2 * (b * d - a * c), 2 * (c * d + a * b), a * a - b * b - c * c + d * d]]
+    R = np.empty((3, 3), dtype=object)
+    for i in range(3):
+        for j in range(3):
+            R[i, j] = Sym(M[i][j] / n2)
     return R
 
 
@@ -254,7 +278,7 @@ def _scenario(clause):
                         ("including_ties", z3.Implies(ties, tz(r1[0]) == tz(r2[0])))]
             return [("min_image_vector_same_up_to_sign", flip, "lemma"), ("distance_equal", tz(r1[0]) == tz(r2[0]), "from_lemmas")]
         if what == "rotation":
-            R = _rotation(ex)
+            R = _rotation_q(ex)
             return eq(o.calculate(s), o.calculate(_clone(s, pos=_rot(R, s.pos))))
         if what == "velocity_sign":
             r1, r2 = o.calculate(s), o.calculate(_clone(s, vel=-s.vel))
@@ -356,6 +380,72 @@ def run_clause(spec, tier, seed):
             o["witness"] = witness
         obs.append(o)
     return {"job": clause, "obligations": obs, "coverage_extra": {"e2_paths": n_paths}, "samples": [{"clause": clause, "paths": n_paths}]}
+
+
+def run_rotation(spec, tier, seed):
+    """Rotation invariance of Distance / Dihedral / Puckering (non-periodic): the REAL calculate() runs on symbolic positions and
+    on the same positions rotated by R(q); every component of the two results must be the SAME rational function of the
+    coordinates and q after canonicalising sqrt / arctan2 applications (symnp/ratid.py, sympy).  Paths whose branch conditions
+    contradict each other modulo that canonicalisation (phi1 < 0 and not phi2 < 0 for identical phi) are infeasible."""
+    import time
+    import numpy as np
+    import infretis.classes.orderparameter as op
+    from symnp.npproxy import NPProxy
+    from symnp.ratid import Translator, contradictory, identical
+    from symnp.sym import Explorer, explore
+    Explorer.div_zero_policy = "assume"
+    clause = spec["clause"]
+    scen = _scenario(clause)
+    t0 = time.time()
+
+    def run(ex):
+        proxy = NPProxy()
+        op.np = proxy
+        try:
+            try:
+                return scen(ex), None
+            except (IndexError, ZeroDivisionError, TypeError, ValueError) as e:
+                return None, repr(e)
+        finally:
+            op.np = np
+    results, n_paths, n_infeasible, detail = {}, 0, 0, None
+    try:
+        runs = explore(run, max_paths=64)
+    except Exception as e:
+        return {"job": clause, "obligations": [{"name": f"{clause}/exploration", "result": "unknown", "label": "proved-per-shape", "backend": "E2", "time_s": 0.0, "engine": "E2", "solver_output": repr(e)}]}
+    for ex, (goals, err) in runs:
+        n_paths += 1
+        if err is not None:
+            results["no_exception"] = "unknown"
+            detail = detail or err
+            continue
+        tr = Translator()
+        try:
+            if contradictory(tr, ex.pc):
+                n_infeasible += 1
+                continue
+        except Exception as e:  # translation outside the fragment: the path stays feasible
+            detail = detail or repr(e)
+        for k, g in enumerate(goals):
+            gname = f"component{k}_identical_rational_function"
+            try:
+                ok = identical(tr, g.children()[0], g.children()[1])
+            except Exception as e:
+                ok, detail = False, detail or repr(e)
+            if not ok:
+                results[gname] = "unknown"
+            else:
+                results.setdefault(gname, "unsat")
+    if n_paths == n_infeasible or not results:
+        results["some_feasible_path"] = "unknown"
+    import sympy
+    obs = []
+    for gname, r in results.items():
+        o = {"name": f"{clause}/{gname}", "result": r, "label": "proved-per-shape", "backend": "sympy-" + sympy.__version__ + " (rational-function identity)", "time_s": round(time.time() - t0, 3), "engine": "E2"}
+        if r != "unsat":
+            o["solver_output"] = "difference of the two results is not the zero rational function (undecided, never a refutation): " + str(detail)
+        obs.append(o)
+    return {"job": clause, "obligations": obs, "coverage_extra": {"e2_paths": n_paths, "rotation_infeasible_paths": n_infeasible}, "samples": [{"clause": clause, "paths": n_paths}]}
 
 
 # ------------------------------------------------------------------ native replay
